@@ -41,6 +41,9 @@ type rqPool struct {
 	cwHook  func() map[worker.State]int
 	runHook func() map[string]time.Time
 	subCh   chan struct{}
+	// if set: what Running() answers from its second call on (the pool as it is when a goroutine runs)
+	runningNow map[string]time.Time
+	runCalls   int
 }
 
 func rqNext(l *[]bool) bool {
@@ -60,8 +63,13 @@ func (p *rqPool) Running() map[string]time.Time {
 	}
 	p.Lock()
 	defer p.Unlock()
+	src := p.running
+	if p.runningNow != nil && p.runCalls > 0 {
+		src = p.runningNow
+	}
+	p.runCalls++
 	r := map[string]time.Time{}
-	for k, v := range p.running {
+	for k, v := range src {
 		r[k] = v
 	}
 	return r
